@@ -14,7 +14,7 @@ LEVEL_TEXT = ("Specification strings are generated from a structured description
               "built adapter is probed with three reads (internal, partial at the end, anchored) against the documented placement table, and "
               "documented invalid combinations must be rejected by the real CLI with exit status 2 and a message.")
 LEVEL_NOTE = ("Trusted base: the generator's structured description (written from doc/guide.rst and doc/reference.rst). Error values giving a "
-              "rate >= 1 are outside the domain and not generated; file-level parameters restricted to the documented e/o/indels/noindels.")
+              "rate >= 1 are outside the domain and not generated; file-level parameters: e/o/indels/noindels and the flags anywhere/rightmost.")
 VARIANTS = {"quick": ["plain"], "thorough": ["plain"]}
 BUDGET_S = {"quick": 150, "thorough": 3000}
 FLOORS = {"quick": 5000, "thorough": 150000}
@@ -245,6 +245,17 @@ def gen_and_check(ctx, rng):
                     problems.append(("name", f"{spec}: name {ad.name!r}, documented {name!r}"))
         else:
             recs = [gen_single(rng, typ, allow_restr=False, allow_flags=False) for _ in range(rng.randint(1, 3))]
+            if typ != "anywhere" and rng.random() < 0.3:
+                # a linked record: the file's anchoring applies to its outer end, its parameters to both parts
+                k = rng.randrange(len(recs))
+                lf = gen_single(rng, "front", allow_restr=False, allow_flags=False)
+                lb = gen_single(rng, "back", allow_restr=False, allow_flags=False)
+                for side, x in (("f", lf), ("b", lb)):
+                    if rng.random() < 0.3:
+                        v = rng.choice(["required", "optional"])
+                        x["req"] = v == "required"
+                        x["ptxt"] = x["ptxt"] + [v]
+                recs[k] = dict(linked=(lf, lb))
             anch = rng.choice(["", "^", "$"]) if typ != "anywhere" else ""
             if anch == "^" and typ != "front":
                 anch = ""
@@ -257,16 +268,42 @@ def gen_and_check(ctx, rng):
                 v = rng.randint(1, 9); fparams["o"] = v; ftxt.append(f"o={v}")
             if rng.random() < 0.4:
                 v = rng.choice(["indels", "noindels"]); fparams["indels"] = v == "indels"; ftxt.append(v)
+            fflags = {}
+            if not anch and typ != "anywhere" and rng.random() < 0.3 and not any("linked" in d for d in recs):
+                # the flag parameters are search parameters too: given for the file they hold for every record
+                fl = rng.choice(["anywhere", "rightmost"] if typ == "front" else ["anywhere"])
+                fflags[fl] = True
+                ftxt.insert(rng.randint(0, len(ftxt)), fl)
+                ctx.count("file_level_flag:" + fl)
             g2 = dict(glob)
             g2.update(fparams)
             lines = []
-            for k, d in enumerate(recs):
-                if anch:
-                    d["params"].pop("o", None)
-                    d["ptxt"] = [p for p in d["ptxt"] if not p.strip().startswith(("o=", "min_overlap="))]
+            def strip_o(d):
+                d["params"].pop("o", None)
+                d["ptxt"] = [p for p in d["ptxt"] if not p.strip().startswith(("o=", "min_overlap="))]
+
+            def rate_ok(d):
                 e_eff = d["params"].get("e", g2["e"])
                 norm = R.normalize_adapter(d["seq"])
-                if e_eff >= 1 and e_eff / (len(norm) - norm.count("N")) >= 1:
+                return not (e_eff >= 1 and e_eff / (len(norm) - norm.count("N")) >= 1)
+
+            for k, d in enumerate(recs):
+                if "linked" in d:
+                    lf, lb = d["linked"]
+                    if anch == "^":
+                        strip_o(lf)
+                    if anch == "$":
+                        strip_o(lb)
+                    if not (rate_ok(lf) and rate_ok(lb)):
+                        ctx.count("skipped_rate_ge_1")
+                        return
+                    lines.append(f">rec{k} some comment\n" + lf["text"] + (";" + ";".join(lf["ptxt"]) if lf["ptxt"] else "") + "..."
+                                 + lb["text"] + (";" + ";".join(lb["ptxt"]) if lb["ptxt"] else "") + "\n")
+                    ctx.count("file_with_linked_record" + anch)
+                    continue
+                if anch:
+                    strip_o(d)
+                if not rate_ok(d):
                     ctx.count("skipped_rate_ge_1")
                     return
                 lines.append(f">rec{k} some comment\n{d['text']}" + (";" + ";".join(d["ptxt"]) if d["ptxt"] else "") + "\n")
@@ -276,7 +313,7 @@ def gen_and_check(ctx, rng):
                 fh.write(filetext)
             spec = {"": "file:", "^": "^file:", "$": "file$:"}[anch] + path + (";" + ";".join(ftxt) if ftxt else "")
             ctx.count("kind:file" + anch)
-            if any(d["ptxt"] for d in recs):
+            if any(d.get("ptxt") for d in recs):
                 ctx.count("file_with_record_parameters" + anch)
             trailing = None
             if rng.random() < 0.5:
@@ -297,7 +334,29 @@ def gen_and_check(ctx, rng):
             if len(ads) != len(recs):
                 problems.append(("count", f"{spec}: {len(ads)} adapters for {len(recs)} records"))
             for k, (ad, d) in enumerate(zip(ads, recs)):
+                if "linked" in d:
+                    lf, lb = d["linked"]
+                    txt = f"{spec.replace(path, 'FILE')} [rec{k}: {lines[k].splitlines()[1]}]"
+                    if not isinstance(ad, A.LinkedAdapter):
+                        problems.append(("class", f"{txt}: built {type(ad).__name__}, documented a linked adapter"))
+                        continue
+                    f2, b2 = dict(lf), dict(lb)
+                    f2["restr"] = "anchored" if anch == "^" else None
+                    b2["restr"] = "anchored" if anch == "$" else None
+                    if typ == "front":
+                        fr, br = True, True
+                    else:
+                        fr, br = f2["restr"] is not None, b2["restr"] is not None
+                    fr, br = lf.get("req", fr), lb.get("req", br)
+                    if (ad.front_required, ad.back_required) != (fr, br):
+                        problems.append(("required", f"{txt} via {'-g' if typ == 'front' else '-a'}: required=({ad.front_required},{ad.back_required}), documented ({fr},{br})"))
+                    check_single(ad.front_adapter, expect_single(f2, g2, None), txt + " [5' part]", problems)
+                    check_single(ad.back_adapter, expect_single(b2, g2, None), txt + " [3' part]", problems)
+                    if ad.name != f"rec{k}":
+                        problems.append(("name", f"{txt}: name {ad.name!r}, documented 'rec{k}'"))
+                    continue
                 d2 = dict(d)
+                d2["params"] = dict(d["params"], **fflags)
                 d2["restr"] = "anchored" if anch else None
                 check_single(ad, expect_single(d2, g2, f"rec{k}"), f"{spec.replace(path, 'FILE')} [rec{k}: {d['text']};{d['ptxt']}]", problems)
     except Exception as e:
